@@ -50,7 +50,7 @@ const selfID = core.PeerID("self-peer-id")
 
 // waitOp is the watchdog for a call that never comes (only reached when the real code leaves the protocol); after a few
 // such cases the remaining ones are decided faster
-var waitOp = 8 * time.Second
+var waitOp = 20 * time.Second
 var missing int
 
 // ---------------------------------------------------------------------------------------------- gate
